@@ -3,6 +3,8 @@ package main
 import (
 	"go/token"
 	"go/types"
+	"os"
+	"path/filepath"
 
 	"golang.org/x/tools/go/ssa"
 )
@@ -355,4 +357,29 @@ func partsConcrete(w *Worker, v value) (*Term, *Term) {
 		unsupported("time with monotonic clock reading")
 	}
 	return w.tc.IntConst64(int64(ext)), w.tc.IntConst64(int64(wall & (1<<30 - 1)))
+}
+
+// os.ReadFile of a concrete path (test vectors under the package's testdata directory): relative paths are
+// resolved against the directory of the package under test, as `go test` does for the native run.
+func init() {
+	moreRegs = append(moreRegs, func(eng *Engine) {
+		eng.intrinsics["os.ReadFile"] = func(w *Worker, fr *frame, fn *ssa.Function, args []value) value {
+			name, ok := args[0].(string)
+			if !ok {
+				unsupported("os.ReadFile: symbolic path")
+			}
+			if !filepath.IsAbs(name) {
+				name = filepath.Join(w.eng.pkgDir, name)
+			}
+			b, err := os.ReadFile(name)
+			if err != nil {
+				return tuple{[]value(nil), w.mkError(err.Error())}
+			}
+			out := make([]value, len(b))
+			for i, x := range b {
+				out[i] = uint64(x)
+			}
+			return tuple{out, iface{}}
+		}
+	})
 }
